@@ -107,6 +107,16 @@ func (c *conn) Write(p []byte) (int, error) {
 	h.cond.Broadcast()
 	return len(p), nil
 }
+
+// closeRead is called by a receiver that gives up: the peer's writer must not
+// block forever on a full pipe.
+func (c *conn) closeRead() {
+	c.r.mu.Lock()
+	c.r.closed = true
+	c.r.cond.Broadcast()
+	c.r.mu.Unlock()
+}
+
 func (c *conn) closeWrite() {
 	c.w.mu.Lock()
 	c.w.closed = true
@@ -214,6 +224,7 @@ func session(ci int, cfg config) {
 		}()
 		go func() { // receiver: direction 1-e
 			defer wg.Done()
+			defer conns[e].closeRead()
 			<-start
 			d := 1 - e
 			for i := 0; i < cfg.n; i++ {
